@@ -178,13 +178,108 @@ def gen_vectors(ck, w, count):
     return out
 
 
+LONG = {"--encode": 101, "--decode": 100, "--verify": 118, "--version": 86, "--help": 104, "--no_echo": 110}
+SHORT = {"-e": 101, "-d": 100, "-v": 118, "-V": 86, "-h": 104, "-n": 110}
+WITHARG = {"-i": 105, "--input": 105, "-o": 111, "--output": 111, "-k": 107, "--key": 107, "--cmode": 1, "--hmode": 2}
+
+
+def concrete_options(argv):
+    """what getopt_long delivers for the argument shapes gen_vectors renders (None = a shape not handled here)"""
+    opts, i = [], 0
+    while i < len(argv):
+        a = argv[i]
+        if a in LONG or a in SHORT:
+            opts.append((LONG.get(a) or SHORT.get(a), None))
+        elif a in WITHARG:
+            if i + 1 >= len(argv):
+                return None
+            opts.append((WITHARG[a], argv[i + 1]))
+            i += 1
+        elif a.startswith("--") and "=" in a and a.split("=", 1)[0] in WITHARG:
+            opts.append((WITHARG[a.split("=", 1)[0]], a.split("=", 1)[1]))
+        elif a in ("-q", "--bogus", "-z"):
+            opts.append((63, None))
+        else:
+            return None
+        i += 1
+    return opts
+
+
+def whole_program_runs(ck, w, vecs, real, mdrv):
+    """the same argument vectors on the WHOLE PROGRAM from translated source (SrcRun6.src_main: get_v_opt, then the operation, with
+    threads, under MiniCConc): exit status, and for a successful decryption the output bytes, against the real binary.  The
+    environment is explicit: what getopt_long delivers and, per fopen in call order, success + content.  One 256-byte chunk
+    (WV_BUF=16) holds the 150-byte test files as the production 16 MiB chunk does."""
+    lines, meta = [], {}
+    for i, (t, argv, toks) in enumerate(vecs):
+        opts = concrete_options(argv)
+        if opts is None or any(isinstance(x[3], tuple) for x in toks if x[0] == "i") or any(x[0] == "i" and x[1] for x in toks):
+            continue            # special files / very long names: their fopen behaviour is the OS's
+        fop, outidx, last_dflt, k = [], None, False, 0
+        oi = iter([a for c, a in opts if c in (105, 111)])
+        for x in toks:
+            if x[0] == "i":
+                pth = os.path.join(w.d, next(oi))
+                last_dflt = x[2]
+                if x[3] == "M" or not os.path.isfile(pth):
+                    fop.append("-")
+                else:
+                    fop.append("=" + open(pth, "rb").read().hex())
+                k += 1
+            elif x[0] == "o":
+                outpath = next(oi)
+                fop.append("=" if x[1] else "-")
+                if x[1]:
+                    outidx, outp = k, outpath
+                k += 1
+        fop.append("=" if last_dflt else "-")
+        ol = ",".join("%d:%s" % (c, "-" if a is None else (a.encode().hex() or "")) for c, a in opts)
+        if any(a == "" for c, a in opts if a is not None):
+            continue            # an empty option argument: the hex field would be empty
+        lines.append("m%d @S=%d main %s %s" % (i, ck.rng.randrange(1 << 30), ol or "-", ",".join(fop)))
+        meta[i] = (outidx, toks)
+    out = wv.run_lines([mdrv, "src"], lines, shards=wv.NCPU, env={"WV_BUF": "16", "WV_HBUF": "4"}, timeout=1800) if lines else {}
+    bad = []
+    for i, (outidx, toks) in meta.items():
+        got = out.get("m%d" % i)
+        if got is None:
+            continue
+        kind, rc, txt = real[i]
+        ck.cov["whole_program_runs_on_translated_source"] = ck.cov.get("whole_program_runs_on_translated_source", 0) + 1
+        m = re.match(r"RC (\d+) streams=(.*)", got)
+        why = None
+        if kind != "EXIT" or not m:
+            why = "status"
+        elif int(m.group(1)) != rc % 256:
+            why = "exit status %s vs %d" % (m.group(1), rc)
+        elif rc == 0 and outidx is not None and any(x[0] == "d" for x in toks) and not any(x[0] in "evVh" for x in toks):
+            streams = m.group(2).split("|")
+            mine = streams[outidx] if outidx < len(streams) else "?"
+            if mine == "-":
+                mine = ""
+            argv = vecs[i][1]
+            op = [a for c, a in concrete_options(argv) if c == 111][-1]
+            try:
+                theirs = open(os.path.join(w.d, op), "rb").read().hex()
+            except OSError:
+                theirs = "(no file)"
+            if mine != theirs:
+                why = "decrypted output differs"
+        if why:
+            bad.append({"class": None, "argv": vecs[i][1], "real": "%s %d" % (kind, rc), "translated_program": got[:300], "difference": why,
+                        "broken": "correspondence whole program (translated main + operation) vs real binary"})
+    ck.cov["disagreements_source_vs_impl"] = ck.cov.get("disagreements_source_vs_impl", 0) + len(bad)
+    if bad and not ck.violations:
+        ck.violation("the whole program run from translated source disagrees with the real binary on %d argument vectors (%s) but no vector violating the property was found" % (len(bad), bad[0]["difference"]), bad[0], found_input=False)
+
+
 def kid_fix(text):
     """model key identities: W1/V1 -> 1, W2/V2 -> 2"""
     return text
 
 
 def run(ck):
-    ck.prove("Properties_C17", THEOREMS)
+    ck.prove(["Properties_C17", "SrcRun6"], THEOREMS)   # SrcRun6: the translated whole program the vectors are also run on
     exe = ck.impl_driver(kind="cli")
     ck.impl_flags = "-DWENCRY_VERIF -DOPT_ON (main.cpp + valget + kernel of /repo, production constants)"
     mdrv = ck.model_driver()
@@ -257,6 +352,7 @@ def run(ck):
         if (kind, rc) != ("EXIT", 0) or open(os.path.join(d, "G"), "rb").read() != data:
             rep.update({"argv2": ["-d", "-i", "F.wenc", "-o", "G", "-k", mk.group(1)], "status2": "%s %d" % (kind, rc)})
             ck.violation("`-d -i F.wenc -o G -k K` with the printed key did not restore F", rep)
+    whole_program_runs(ck, w, vecs, real, mdrv)
     ck.cov["distinct_nontrivial"] = len(distinct)
     ck.cov["disagreements_model_vs_impl"] = corr
     if srcbad and not ck.violations:
